@@ -184,14 +184,14 @@ From V Require Import C04.Scope C04.ScopeProofs.
 Definition ex_sprog : list sfile :=
   [ mkSFile true true
       [ SSImport [];
-        SSLocal [(PId 1, Some (XFun [3] [] [XId 3; XId 2]))];
-        SSExpr (XCall (XId 1) [XFun [] [2] [XId 2]]);
-        SSFunction 4 [] [] [XId 5] ];
+        SSLocal [(PId 1, Some (XFun [3] [] [] [XId 3; XId 2]))];
+        SSExpr (XCall (XId 1) [XFun [] [] [2] [XId 2]]);
+        SSFunction 4 [] [] [] [XId 5] ];
     mkSFile true false
       [ SSLocal [(PId 2, Some XLit)];
         SSLocal [(PId 3, Some (XCall (XId 9) []))];
-        SSClass 5 None [XFun [2] [] [XId 3]] ] ].
-Example ex_fv_shadow : fv [] (XFun [3] [] [XId 3; XId 2]) = [2] /\ fv [] (XCall (XId 1) [XFun [] [2] [XId 2]]) = [1].
+        SSClass 5 None [XFun [2] [] [] [XId 3]] ] ].
+Example ex_fv_shadow : fv [] (XFun [3] [] [] [XId 3; XId 2]) = [2] /\ fv [] (XCall (XId 1) [XFun [] [] [2] [XId 2]]) = [1].
 Proof. vm_compute. auto. Qed.
 Definition ex_slinked := link_program true false [0] ex_sprog.
 Example ex_slinked_live :
@@ -213,3 +213,14 @@ Example ex_chain_live :
   mark ex_chain (default_fuel ex_chain) = Some [IFile 2; IPart 2 1; IFile 1; IPart 1 1; IPart 0 1; IFile 0]
   /\ bindings_ok ex_chain ex_chain_bindings = true /\ bindings_ok ex_chain_base ex_chain_bindings = false.
 Proof. vm_compute. auto. Qed.
+
+(* the wider forms: a default value sees the parameter but not the body's var;
+   a catch binding and a for-let binder are not module references; computed keys
+   of an object pattern and class fields / static blocks are *)
+Example ex_fv_wide :
+  fv [] (XFun [3] [XId 3; XId 4] [4] [XId 4]) = [4]
+  /\ fv [] (XClass None [XField true (Some (XId 6)) (Some (XId 7)); XStaticBlock [8] [XId 8; XId 9]]) = [6; 7; 9]
+  /\ td_uses (match analyze (fun _ => true) (SSTry (XId 1) (Some (Some 2, [XId 2; XId 3]))) with TOther d => d | _ => mkTDecl [] [] true end) = [zs 1; zs 3]
+  /\ td_uses (match analyze (fun _ => true) (SSCompound 1 [] [5] [XId 5; XId 6] []) with TOther d => d | _ => mkTDecl [] [] true end) = [zs 6]
+  /\ td_uses (match analyze (fun _ => true) (SSLocal [(PObj [(Some (XId 1), 2, Some (XId 3))], Some XLit)]) with TLocal [d] => d | _ => mkTDecl [] [] true end) = [zs 1; zs 3].
+Proof. vm_compute. repeat split. Qed.
